@@ -243,9 +243,7 @@ func (e *Exec) prepareCall(th *Thread, fr *Frame, call *ssa.CallCommon) (Value, 
 		if recv.t == nil {
 			panic(goPanic{msg: "invalid memory address or nil pointer dereference (method " + call.Method.Name() + " invoked on nil interface)"})
 		}
-		e.P.buildMu.Lock()
-		f := e.P.prog.LookupMethod(recv.t, call.Method.Pkg(), call.Method.Name())
-		e.P.buildMu.Unlock()
+		f := e.P.lookupMethod(recv.t, call.Method.Pkg(), call.Method.Name())
 		if f == nil {
 			panic(pathAbort{"error", fmt.Sprintf("method %s not found on %v", call.Method.Name(), recv.t)})
 		}
